@@ -12,7 +12,11 @@ P = {
                  "C02_ties_never_decide", "C02_nonvacuous", "C02_order_independent", "C02_rulesets_order_independent",
                  "C02_answer_is_first_acceptable",
                  "C02_match_decides_matches", "C02_parsed_expressions_wellformed", "C02_wildcards_nonempty",
-                 "C02_escapes_are_literals"],
+                 "C02_escapes_are_literals",
+                 "C02_reachable_tree_refines_machine", "C02_reachable_find_is_most_specific",
+                 "C02_reachable_find_is_most_specific_with_flag_in_force", "C02_reachable_order_independent",
+                 "C02_history_index_is_reachable", "C02_history_find_rule", "C02_history_find_rule_on_stored_routes",
+                 "C02_history_nonvacuous"],
     "streams": [{
         "name": "tree", "pkg": "./internal/x/radixtree", "test": "TestVerifC02Tree",
         "overlay": dict({"internal/x/radixtree/zz_verif_c02_test.go": "c02/c02_tree_test.go"}, **_OVERLAY_GEN),
@@ -40,7 +44,8 @@ P = {
             "order. Stream processor: the same written as configuration (backtracking_enabled set/unset x default rule, scheme/host/method) "
             "through the real NewRuleSetProcessor -> NewRuleFactory.CreateRule -> repository. Stream history: 2-7 OnCreated/OnUpdated/"
             "OnDeleted operations (definition-only changes, flag flips, reorderings, dropped/new rules, new routes; siblings on one "
-            "expression inside a set) then lookups, judged against a FRESH load of the rule sets in force. Expressions over a b A B 1 2 "
+            "expression inside a set, a path listed twice in a rule) then lookups, compared with the machine-level history model and with the "
+            "compressed-tree model after the same Adds and Deletes, judged against a FRESH load of the rule sets in force. Expressions over a b A B 1 2 "
             ". - ; ~ % : * \\ / and a non-ASCII byte (static up to 16 bytes, :name, :*, *name, **, escaped, empty segments, trailing slash, "
             "malformed; up to 7 segments), 68% derived from an earlier expression of the case (same again, other key names, prefix, split "
             "inside a token, generalise/specialise one segment, free wildcard below a prefix, directory/child form); lookups = instances "
@@ -52,10 +57,13 @@ P = {
                 "internal/rules/rule_impl.go", "internal/rules/route_matcher.go", "internal/rules/rule_factory_impl.go",
                 "internal/rules/ruleset_processor_impl.go"],
     "trusted": [
-        "the Gallina transcription of tree.go (Radix/Tree.v: addNode, splitCommonPrefix, Add, findNode, Find) and of the repository "
-        "(C02/Model.v) is tied to the Go code by the correspondence runs only; static-child priorities (order of children) are omitted; "
-        "delNode/deleteChild and Clone are not transcribed: update/delete histories are modelled at the level of the pattern-map machine "
-        "(C02/Model.v hstep) and compared differentially, without a theorem (the general statement about histories is C06's)",
+        "the Gallina transcription of tree.go (Radix/Tree.v: addNode, splitCommonPrefix, Add, findNode, Find; C06/TreeDel.v, owned by C06: "
+        "delNode, deleteChild, delEdge, Delete) and of the repository (C02/Model.v, C02/HistTree.v) is tied to the Go code by the "
+        "correspondence runs only; static-child priorities (order of children) are omitted; Clone is the identity in the model (values are "
+        "returned, not mutated); in histories which operations the implementation accepted and the answers of SameAs / EqualTo are data of "
+        "the case; a route object is modelled as (rule id, rule-set id, position in its rule's route list), rule ids being unique inside a "
+        "rule set; that the content of the model tree after a history equals the machine-level history model (C02/Model.v hstep) is checked "
+        "per case (db_equiv), not proved",
         "which Adds / rule sets are accepted is not part of the property: the index content is built from what the implementation accepted; "
         "a failed real Add leaves value-less nodes behind, invisible to lookups",
         "the flag of an expression 'as the property states it' is the conjunction of its rules' flags (regular_rule.adoc: 'a less specific "
@@ -64,24 +72,31 @@ P = {
         "history), scheme and exact host (processor); path_params / glob / regex conditions and URL.Captures are C03's",
         "every Add carries WithBacktracking (as repository.addRulesTo does)",
     ],
-    "level_text": "Proof (kernel-checked, no axioms): for every sequence of Adds (any expressions, insertion order, flags, values constraint), "
-                  "every path and every condition (captures included) the transcribed compressed radix tree of tree.go (addNode with prefix "
-                  "splitting, findNode with static/wildcard/catch-all children and backtrack flags) returns exactly what the declarative "
-                  "specification says - scan of the matching expressions by specificity (literal < single wildcard < free wildcard at the first "
-                  "differing position; the tie-breaks of the order provably never decide), first acceptable value in insertion order, continue "
-                  "only if the failed expression allows backtracking - with the flag of the last Add (unguarded) and, outside open finding "
-                  "C02-F2, with the flag the property states (all rules of the failed expression allow it); repository level incl. default rule / "
-                  "no rule; independence of how Adds of different expressions are interleaved and of the order of completely accepted rule sets; "
+    "level_text": "Proof (kernel-checked, no axioms): for EVERY sequence of Adds and Deletes of valid expressions on the empty index (any "
+                  "expressions, order, flags, values constraint, delete matchers) - hence for every state reached by any history of AddRuleSet / "
+                  "UpdateRuleSet / DeleteRuleSet -, every path and every condition (captures included) the transcribed compressed radix tree of "
+                  "tree.go (addNode with prefix splitting, delNode / deleteChild with node merging, findNode with static/wildcard/catch-all "
+                  "children and backtrack flags) keeps its invariant, holds exactly the entries of the abstract pattern-map machine after the same "
+                  "operations, and findNode returns exactly what the declarative specification says on the routes currently stored - scan of the "
+                  "matching expressions by specificity (literal < single wildcard < free wildcard at the first differing position; the tie-breaks "
+                  "of the order provably never decide), first acceptable value in insertion order, continue only if the failed expression allows "
+                  "backtracking - with the flag in force (unguarded) and, outside open finding C02-F2, with the flag the property states (all rules "
+                  "of the failed expression allow it); repository level incl. default rule / no rule, after rule-set loads and after histories; "
+                  "independence of how operations on different expressions are interleaved and of the order of completely accepted rule sets; "
                   "wildcards non-empty, escapes literal. The model is tied to radixtree.Tree, rules.repository, NewRuleFactory and "
                   "NewRuleSetProcessor by four differential streams (~1270 cases / ~19000 lookups per quick run) comparing every returned value / "
-                  "rule id with the tree model, the machine and the specification; update/delete histories are compared with a machine-level "
-                  "history model and judged against a fresh load (open finding C02-F3), without a theorem.",
+                  "rule id with the tree model (after update/delete histories too), the machine and the specification; histories are judged "
+                  "against a fresh load of the rule sets in force (open finding C02-F3).",
     "level_note": "Trusted: Coq kernel/vm_compute; the hand transcription of tree.go / repository_impl.go into Gallina (checked differentially "
-                  "on every run, not verified); the Go drivers and generators (harness/c02) and the rendering into Gallina. Not covered by a "
-                  "theorem: states reached by UpdateRuleSet/DeleteRuleSet (delNode/deleteChild not transcribed; C06), static-child priorities "
-                  "(order only), Clone. Open findings: C02-F2 (flag of the last Add in force; = C06-F2) and C02-F3 (rule order after an update; "
-                  "= C06-F1), both guarded by input, both with a refutation witness, both observed on every run. C02-F1 was repaired by e897fef; "
-                  "its witness stays in the corpus. URL.Captures / path_params are C03's observables.",
+                  "on every run, not verified; the Delete side is C06's file C06/TreeDel.v, its invariant and refinement proofs are imported from "
+                  "C06); the Go drivers and generators (harness/c02) and the rendering into Gallina. The theorems about reachable states assume "
+                  "that a Delete names a parseable expression (a Delete of a non-expression can remove another expression's route, witness "
+                  "delete_of_a_non_expression); the repository-level theorem discharges it (only routes that were added are deleted). Not covered "
+                  "by a theorem: that the routes stored after an update are those of a fresh load in rule-set order (false: C02-F3; C06's "
+                  "statement), the equality of the model tree's content with the machine-level history model (checked per case), static-child "
+                  "priorities (order only), Clone / copy-on-write (C07). Open findings: C02-F2 (flag of the last Add in force; = C06-F2) and "
+                  "C02-F3 (rule order after an update; = C06-F1), both guarded by input, both with a refutation witness, both observed on every "
+                  "run. C02-F1 was repaired by e897fef; its witness stays in the corpus. URL.Captures / path_params are C03's observables.",
     "assumptions": ["lookups never mutate the tree; the drivers use one goroutine",
                     "the repository driver builds ruleImpl/routeImpl values directly (in-package); a rename of their fields breaks the driver, not the property"],
 }
